@@ -365,6 +365,117 @@ Proof.
   vm_compute. auto.
 Qed.
 
+(* ---- the control registry with identities (cregx_apply): the connMap component of Register / Remove is creg_apply's *)
+Lemma cregx_map_transfer b max o r :
+  (forall id cl, o <> XAuth id cl) ->
+  fst (cregx_apply b max o r) = fst (creg_apply max (to_rop o) (x_map r)) /\
+  x_map (snd (cregx_apply b max o r)) = snd (creg_apply max (to_rop o) (x_map r)).
+Proof.
+  intros Hna. destruct o as [id t cl|id|id cl]; [| |exfalso; apply (Hna id cl); reflexivity]; unfold cregx_apply, creg_apply, to_rop.
+  - destruct (N.eqb id 0); [auto|]. destruct (has (x_map r) id).
+    + cbn [fst snd x_insert x_map]. rewrite (proj2 (remove_conn_removes r id)). auto.
+    + destruct (at_cap max (length (x_map r))); [|cbn; auto].
+      destruct (oldest (x_map r)) as [old|]; [|auto]. cbn [fst snd x_insert x_map].
+      rewrite (proj2 (remove_conn_removes r (fst old))). auto.
+  - destruct (has (x_map r) id); [|auto]. cbn [fst snd]. rewrite (proj2 (remove_conn_removes r id)). auto.
+Qed.
+
+(* UpdateAuth: the key set is the old one, minus at most ONE other connection — the one the client id resolved to *)
+Lemma cregx_auth_map b max id cl r :
+  x_map (snd (cregx_apply b max (XAuth id cl) r)) = x_map r \/
+  exists old, old <> id /\ x_map (snd (cregx_apply b max (XAuth id cl) r)) = del (x_map r) old.
+Proof.
+  unfold cregx_apply. destruct (has (x_map r) id); cbn [negb]; [|left; reflexivity].
+  set (r1 := {| x_map := x_map r; x_ident := (id, cl) :: del (x_ident r) id;
+                x_index := filter (fun e => negb (N.eqb (snd e) id) || N.eqb (fst e) cl) (x_index r) |}).
+  destruct (b && has (x_index r1) cl && negb (N.eqb (lookup2 (x_index r1) cl) id)) eqn:E; cbn [snd x_map].
+  - right. exists (lookup2 (x_index r1) cl). split.
+    + apply andb_prop in E. destruct E as [_ E]. apply negb_true_iff in E. now apply N.eqb_neq in E.
+    + rewrite (proj2 (remove_conn_removes r1 _)). reflexivity.
+  - left. reflexivity.
+Qed.
+
+Lemma cregx_auth_without_eviction max id cl r : x_map (snd (cregx_apply false max (XAuth id cl) r)) = x_map r.
+Proof. unfold cregx_apply. destruct (has (x_map r) id); reflexivity. Qed.
+
+Lemma cregx_inv b max o r : RInv max (x_map r) -> RInv max (x_map (snd (cregx_apply b max o r))).
+Proof.
+  intros H. destruct o as [id t cl|id|id cl].
+  - rewrite (proj2 (cregx_map_transfer b max (XReg id t cl) r ltac:(discriminate))). apply creg_inv, H.
+  - rewrite (proj2 (cregx_map_transfer b max (XRem id) r ltac:(discriminate))). apply creg_inv, H.
+  - destruct (cregx_auth_map b max id cl r) as [E|(old & _ & E)]; rewrite E; [exact H|].
+    destruct H as [Hn Hc]. split; [apply NoDup_keys_del, Hn|]. intros Hm. pose proof (del_length_le (x_map r) old). specialize (Hc Hm). lia.
+Qed.
+
+Lemma cregx_refused_unchanged b max o r : fst (cregx_apply b max o r) = RRefused -> snd (cregx_apply b max o r) = r.
+Proof.
+  unfold cregx_apply. destruct o as [id t cl|id|id cl].
+  - destruct (N.eqb id 0); [reflexivity|]. destruct (has (x_map r) id); [cbn; discriminate|].
+    destruct (at_cap max (length (x_map r))); [|cbn; discriminate]. destruct (oldest (x_map r)); [cbn; discriminate|reflexivity].
+  - destruct (has (x_map r) id); cbn; discriminate.
+  - destruct (has (x_map r) id); cbn [negb]; [cbn; discriminate|reflexivity].
+Qed.
+
+Lemma x_step_inv b max s i : RInv max (x_map (fst s)) -> RInv max (x_map (fst (sys_step _ _ (xstep (cregx_apply b max)) s i))).
+Proof.
+  destruct s as [r ls]. unfold sys_step. cbn [fst snd]. intros H.
+  destruct (nth_error ls i) as [lo|]; [|exact H]. unfold xstep.
+  destruct (xl_todo lo) as [|o rest]; [exact H|].
+  pose proof (cregx_inv b max o r H) as H'. destruct (cregx_apply b max o r) as [res r']. exact H'.
+Qed.
+
+Theorem control_registry_never_exceeds b max r ts sched :
+  RInv max (x_map r) -> RInv max (x_map (fst (xrun (cregx_apply b max) r ts sched))).
+Proof.
+  intros H. unfold xrun.
+  apply (inv_all_schedules _ _ (xstep (cregx_apply b max)) (fun s => RInv max (x_map (fst s)))); [intros s i; apply x_step_inv|exact H].
+Qed.
+
+Lemma cregx_evicts_oldest b max id t cl r : id <> 0%N -> ~ In id (keys (x_map r)) -> at_cap max (length (x_map r)) = true ->
+  exists old, In old (x_map r) /\ (forall e, In e (x_map r) -> (snd old <= snd e)%N) /\
+              fst (cregx_apply b max (XReg id t cl) r) = REvicted (fst old) /\
+              In id (keys (x_map (snd (cregx_apply b max (XReg id t cl) r)))) /\
+              ~ In (fst old) (keys (x_map (snd (cregx_apply b max (XReg id t cl) r)))) /\
+              length (x_map (snd (cregx_apply b max (XReg id t cl) r))) <= length (x_map r).
+Proof.
+  intros Hid Hnew Hc. destruct (cregx_map_transfer b max (XReg id t cl) r ltac:(discriminate)) as [E1 E2].
+  rewrite E1, E2. cbn [to_rop]. apply creg_evicts_oldest; assumption.
+Qed.
+
+Lemma cregx_replace_keeps b max id t cl r : id <> 0%N -> NoDup (keys (x_map r)) -> In id (keys (x_map r)) ->
+  fst (cregx_apply b max (XReg id t cl) r) = ROk /\
+  length (x_map (snd (cregx_apply b max (XReg id t cl) r))) = length (x_map r) /\
+  (forall k, In k (keys (x_map (snd (cregx_apply b max (XReg id t cl) r)))) <-> In k (keys (x_map r))).
+Proof.
+  intros Hid Hn Hin. destruct (cregx_map_transfer b max (XReg id t cl) r ltac:(discriminate)) as [E1 E2].
+  rewrite E1, E2. cbn [to_rop]. apply creg_replace_keeps; assumption.
+Qed.
+
+(* UpdateAuth never grows the registry, removes at most one connection, and never the one being authenticated *)
+Lemma cregx_auth_shrinks b max id cl r : NoDup (keys (x_map r)) ->
+  length (x_map (snd (cregx_apply b max (XAuth id cl) r))) <= length (x_map r) /\
+  length (x_map r) <= S (length (x_map (snd (cregx_apply b max (XAuth id cl) r)))).
+Proof.
+  intros Hn. destruct (cregx_auth_map b max id cl r) as [E|(old & Hne & E)]; rewrite E; [lia|].
+  destruct (in_dec N.eq_dec old (keys (x_map r))) as [Hin|Hnin].
+  - pose proof (del_length_present (x_map r) old Hn Hin). lia.
+  - rewrite (del_absent (x_map r) old Hnin). lia.
+Qed.
+
+Lemma cregx_auth_keeps_self b max id cl r :
+  In id (keys (x_map r)) -> In id (keys (x_map (snd (cregx_apply b max (XAuth id cl) r)))).
+Proof.
+  intros Hin. destruct (cregx_auth_map b max id cl r) as [E|(old & Hne & E)]; rewrite E; [exact Hin|].
+  apply keys_del. split; [exact Hin|congruence].
+Qed.
+
+(* two logins of one client: after the second UpdateAuth only the second connection is left (eb41b39); before that fix both stayed *)
+Example cregx_relogin_witness :
+  let ops := [XReg 1 10 0; XAuth 1 7; XReg 2 20 0; XAuth 2 7] in
+  keys (x_map (fold_left (fun r o => snd (cregx_apply true 5 o r)) ops x_empty)) = [2%N] /\
+  keys (x_map (fold_left (fun r o => snd (cregx_apply false 5 o r)) ops x_empty)) = [2%N; 1%N].
+Proof. vm_compute. auto. Qed.
+
 Section Reg.
   Variable max : nat.
   Variable apply : rop -> list (N * N) -> rres * list (N * N).
@@ -633,13 +744,13 @@ Proof. exists [0; 1; 0]. vm_compute. reflexivity. Qed.
 
 (* ... while the atomic Register on the same callers, under the same schedule and every other, stays at 2 *)
 Lemma creg_atomic_witness :
-  forall sched, length (fst (rrun (creg_apply 2) [(1, 1); (2, 2)]%N
-                                  [{| r_todo := [RReg 3 3]; r_log := [] |}; {| r_todo := [RReg 4 4]; r_log := [] |}] sched)) <= 2.
+  forall b sched, length (x_map (fst (xrun (cregx_apply b 2) {| x_map := [(1, 1); (2, 2)]%N; x_ident := []; x_index := [] |}
+                                  [{| xl_todo := [XReg 3 3 0]; xl_log := [] |}; {| xl_todo := [XReg 4 4 0]; xl_log := [] |}] sched))) <= 2.
 Proof.
-  intros sched.
-  assert (H : RInv 2 (fst (rrun (creg_apply 2) [(1, 1); (2, 2)]%N
-                                [{| r_todo := [RReg 3 3]; r_log := [] |}; {| r_todo := [RReg 4 4]; r_log := [] |}] sched))).
-  { apply client_registry_never_exceeds. split; [|cbn; lia].
+  intros b sched.
+  assert (H : RInv 2 (x_map (fst (xrun (cregx_apply b 2) {| x_map := [(1, 1); (2, 2)]%N; x_ident := []; x_index := [] |}
+                                [{| xl_todo := [XReg 3 3 0]; xl_log := [] |}; {| xl_todo := [XReg 4 4 0]; xl_log := [] |}] sched)))).
+  { apply control_registry_never_exceeds. split; [|cbn; lia].
     cbn. constructor; [intros [H|[]]; discriminate|]. constructor; [intros []|constructor]. }
   destruct H as [_ H]. apply H. lia.
 Qed.
